@@ -210,6 +210,24 @@ def check_triple(start, dt, n, channels):
                 viol.append(("session/results-by-equation-raises", repr(e)))
             b.end_session()
             if 2 <= n <= 12 or n % 10 == 0:
+                # the scenario's cache is reset in mid-session (the live simulation is rebuilt and the earlier steps replayed): the steps that
+                # follow report the grid without a gap or a repeated label, and the ramp's values
+                b.begin_session(scenarios=["base"], scenario_managers=[sm], equations=["s"], starttime=start, dt=dt)
+                times4, vals4 = [], []
+                for i in range(n + 4):
+                    if i == (n // 2) + 1:
+                        b.reset_scenario_cache(scenario_manager=sm, scenario="base")
+                    r = b.run_step()
+                    if isinstance(r, dict) and r.get("msg") == "Stoptime reached":
+                        break
+                    for t, v in r[sm]["base"]["s"].items():
+                        times4.append(float(t))
+                        vals4.append(v)
+                if cmp("session/keys-after-cache-reset", times4):
+                    bad_i = [i for i, v in enumerate(vals4) if not core.close(v, i, rel=1e-9, ab=1e-7)]
+                    if bad_i:
+                        viol.append(("session/value-after-cache-reset", "start=%r dt=%r n=%d i=%d: %r" % (start, dt, n, bad_i[0], vals4[bad_i[0]])))
+                b.end_session()
                 # a step that fails (settings that cannot be applied: the caller handles the error) costs no grid point: the steps that
                 # follow report the grid without a gap
                 for bad in ({sm: {"base": {"constants": 5}}}, {sm: {"base": {"points": {"nolookup": "[[0, 1], [1, "}}}}):
